@@ -678,7 +678,9 @@ fn op_strategy() -> BoxedStrategy<Op> {
         3 => (1..=COLS, 1..3i32).prop_map(|(col, n)| Op::DeleteCols { s: 0, col, n }),
         2 => (1..=ROWS, 1..3i32, -3..4i32).prop_map(|(row, n, delta)| Op::MoveRows { s: 0, row, n, delta }),
         2 => (1..=COLS, 1..3i32, -3..4i32).prop_map(|(col, n, delta)| Op::MoveCols { s: 0, col, n, delta }),
-        6 => (area(), 1..=ROWS, 1..=COLS, any::<bool>()).prop_map(|(src, trow, tcol, cut)| Op::CopyPaste { src, ts: 0, trow, tcol, cut }),
+        // (one paste in four goes to the second sheet: what a cut leaves behind on this one is checked)
+        6 => (area(), prop_oneof![3 => Just(0u8), 1 => Just(1u8)], 1..=ROWS, 1..=COLS, any::<bool>())
+            .prop_map(|(src, ts, trow, tcol, cut)| Op::CopyPaste { src, ts, trow, tcol, cut }),
         7 => Just(Op::Undo),
         3 => Just(Op::Redo),
     ]
@@ -687,7 +689,11 @@ fn op_strategy() -> BoxedStrategy<Op> {
 
 pub fn case_strategy(max_len: usize) -> BoxedStrategy<Case> {
     (prop::collection::vec(op_strategy(), 6..=max_len), prop::bool::weighted(0.4))
-        .prop_map(|(ops, paused)| Case { ops, paused })
+        .prop_map(|(mut ops, paused)| {
+            // a second sheet as paste target
+            ops.insert(0, Op::NewSheet);
+            Case { ops, paused }
+        })
         .boxed()
 }
 
@@ -720,8 +726,8 @@ pub fn run(ctx: &Ctx) {
     ctx.assume("anchors on a dependency cycle (static reads, spill cells depend on their anchor, would-be blocks) and anchors whose block shows #CIRC! while the stored inputs show none are not subject to the exactness check: whether #CIRC! is justified is C05's question");
     ctx.assume("the overwrite check compares the content of every non-empty non-spill cell immediately before and after evaluate() in the paused variant");
     let (cases, len) = match ctx.tier {
-        Tier::Quick => (80000, 16),
-        Tier::Thorough => (1600000, 30),
+        Tier::Quick => (250000, 16),
+        Tier::Thorough => (4000000, 30),
     };
     let avoid = avoid_of(ctx);
     ctx.campaign(
